@@ -103,6 +103,16 @@ def _loop_shaped(node):
     return n == 1 and nret == 0
 
 
+def assigned_names(stmts):
+    """names that the statements may assign (syntactically): the loop's modified variables"""
+    out = set()
+    for st in stmts:
+        for n in ast.walk(st):
+            if isinstance(n, ast.Name) and isinstance(n.ctx, (ast.Store, ast.Del)):
+                out.add(n.id)
+    return out
+
+
 def is_repo_fn(f):
     if not isinstance(f, types.FunctionType):
         return False
@@ -828,7 +838,9 @@ class Interp:
         base = '%s#loop%d' % (fr.name, ordn)
         st8 = spec.enter(self, fr, None)
         self.ctx.oblige(base + '.inv-entry', spec.inv(self, fr, st8), kind='inv-entry', hints=spec.hints(self, fr, st8, 'entry'))
+        before = dict(fr.env)
         spec.havoc(self, fr, st8)
+        carried = self._carried(st.body, fr, before, getattr(spec, 'modifies', ()))
         self.ctx.assume(spec.inv(self, fr, st8))
         if hasattr(spec, 'variant'):
             v0 = spec.variant(self, fr, st8)
@@ -842,6 +854,7 @@ class Interp:
                 return
             except ContinueSig:
                 pass
+            self._frame_obligations(base, fr, carried)
             spec.step(self, fr, st8)
             self.ctx.oblige(base + '.inv-preserved', spec.inv(self, fr, st8), kind='inv-preserved',
                             hints=spec.hints(self, fr, st8, 'preserved'))
@@ -887,7 +900,9 @@ class Interp:
         st8 = spec.enter(self, fr, seqv)
         st8.i = z3.IntVal(0)
         self.ctx.oblige(base + '.inv-entry', spec.inv(self, fr, st8), kind='inv-entry', hints=spec.hints(self, fr, st8, 'entry'))
+        before = dict(fr.env)
         spec.havoc(self, fr, st8)
+        carried = self._carried(st.body, fr, before, getattr(spec, 'modifies', ()))
         i = self.ctx.fresh_index('i')
         st8.i = i
         self.ctx.assume([0 <= i, i <= n])
@@ -904,12 +919,34 @@ class Interp:
                 return
             except ContinueSig:
                 pass
+            self._frame_obligations(base, fr, carried)
             spec.step(self, fr, st8)
             st8.i = i + 1
             self.ctx.oblige(base + '.inv-preserved', spec.inv(self, fr, st8), kind='inv-preserved',
                             hints=spec.hints(self, fr, st8, 'preserved'))
             raise CutPath()
         yield from self.gx_block(st.orelse, fr)
+
+    def _carried(self, body, fr, before, declared=()):
+        """soundness of a loop cut: every variable that is defined before the loop and assigned in its body must either
+        be havoc'ed by the loop contract (then the invariant speaks about it) or be proved unchanged by the body.
+        Returns the variables of the second kind with their values at the loop head."""
+        out = {}
+        for name in assigned_names(body):
+            if name in declared:
+                continue            # havoc'ed by the loop contract (the invariant constrains it)
+            if name in before and name in fr.env and fr.env[name] is before[name]:
+                out[name] = before[name]
+        return out
+
+    def _frame_obligations(self, base, fr, carried):
+        for name, v0 in carried.items():
+            v1 = fr.env.get(name)
+            if v1 is v0:
+                continue
+            c = self.equal(v0, v1) if v1 is not None or v0 is None else False
+            goal = c.e if isinstance(c, SBool) else z3.BoolVal(bool(c))
+            self.ctx.oblige('%s.frame.%s-is-assigned-in-the-loop-but-not-covered-by-the-loop-contract' % (base, name), goal, kind='frame')
 
     def _for_generator_cut(self, st, fr, gen, spec, base):
         """`for x in <generator>` cut at an invariant.  The first iteration is executed as it is (peeled); the cut
